@@ -177,6 +177,13 @@ def classify_c15(c):
           (im["events"][0]["t"] + (":" + im["events"][0]["e"] if im["events"][0]["t"] == "err" else "")))
     return "%s->%s" % (band, out)
 
+def coqchk_stage(run, prop):
+    """thorough tier: the compiled library is re-checked by the independent checker"""
+    rc, out = C.sh("coqchk -silent -o -Q %s Crux Crux.Properties.%s" % (C.COQ, prop), timeout=1800)
+    bad = [l for l in out.splitlines() if "relying on" in l or "assumed" in l or "Axioms" in l]
+    clean = rc == 0 and all(l.rstrip().endswith("<none>") for l in bad)
+    run.oblige("coqchk Crux.Properties.%s (no axioms, nothing assumed)" % prop, clean, out[-800:])
+
 def corpus_path(name):
     return os.path.join(C.ROOT, "corpus", "httpresp", name + "_inputs.jsonl")
 
@@ -274,6 +281,7 @@ def check_C15(run, replay=None):
     tier = run.tier
     count = 0 if replay else (3000 if tier == "quick" else 60000)
     C.proof_stage(run, "C15")
+    if tier == "thorough" and not replay: coqchk_stage(run, "C15")
     known_list, _ = C.known_findings("C15")
     profiles = [False] if tier == "quick" else [False, True]
     cases, table, fixed = [], None, None
@@ -437,6 +445,7 @@ def check_C16(run, replay=None):
     tier = run.tier
     count = 0 if replay else (1200 if tier == "quick" else 40000)
     C.proof_stage(run, "C16")
+    if tier == "thorough" and not replay: coqchk_stage(run, "C16")
     ok, log, bins = C.harness_build(["httpresp_c16"])
     run.oblige("harness-build httpresp_c16 (dev) from the repository working tree", ok, log[-1500:])
     cases = []
